@@ -80,7 +80,7 @@ pub fn test_case(case: &Case) -> Result<CaseInfo, Fail> {
 
 pub fn run(tier: Tier, seed: u64) -> i32 {
     let ctx = Ctx::new("C09", tier, seed, "exploration");
-    ctx.set_rule("proptest: public configuration (circuit, n in 2..4, p_eval, p_out) x K=4 executions with independently generated inputs, engine coins, schedules, link capacities and tmp_dir choices; oracle: for every ordered pair the sequence of (label, byte length) of the messages sent is identical in all K executions (metamorphic relation, no decoding); non-trivial = >=1 AND gate and inputs differing between the executions; distinct by hash of the case; evaluations counts engine executions");
+    ctx.set_rule("proptest: public configuration (circuit, n in 2..4, p_eval, p_out; size classes: small, wide, 100..700 AND gates with every residue modulo 32, thousands of registers, > 1000 AND gates) x K=3..4 executions with independently generated inputs, engine coins, schedules, link capacities and tmp_dir choices; oracle: for every ordered pair the sequence of (label, byte length) of the messages sent is identical in all K executions (metamorphic relation, no decoding); non-trivial = >=1 AND gate and inputs differing between the executions; distinct by hash of the case; evaluations counts engine executions");
     ctx.assume("per ordered pair the order of sends is the sender's program order (monitor m1: one send outstanding per peer)");
     let cp = CircParams { n_min: 2, n_max: 4, max_gates: 30, ..Default::default() };
     prop_search(&ctx, "c09", tier.pick(96, 4000), || gen_c09(cp.clone(), 4), test_case);
@@ -88,9 +88,24 @@ pub fn run(tier: Tier, seed: u64) -> i32 {
         // wide circuits: > 64 unique outputs, many inputs (message sizes in other ranges)
         prop_search(&ctx, "c09wide", tier.pick(16, 800), || gen_c09(CircParams::wide(2, 3), 3), test_case);
     }
-    if tier == Tier::Thorough && !ctx.stopped() {
+    if !ctx.stopped() {
+        // a hundred to several hundred AND gates, every residue of the count modulo 32 (bit-packed
+        // or word-oriented encodings of preprocessing messages would depend on secret bits only
+        // for some lengths), and the sizes at which the leaky-AND batches cross 512 / 1024 / 2048
+        let mut bulk: Vec<usize> = (100..=140).collect();
+        bulk.extend([205, 206, 256, 300, 409, 410, 411, 511, 512, 513, 700]);
+        let mid = CircParams { n_min: 2, n_max: 3, max_gates: 8, bulk, bulk_prob: 255, ..Default::default() };
+        prop_search(&ctx, "c09mid", tier.pick(48, 1500), || gen_c09(mid.clone(), 4), test_case);
+    }
+    if !ctx.stopped() {
+        // thousands of registers, few of them inputs / outputs: the sparse per-register messages
+        // are long (a length that depends on their content would show here)
+        let regs = CircParams { n_min: 2, n_max: 3, max_gates: 10, huge_regs: vec![4232, 5000, 20_000, 65_600], ..Default::default() };
+        prop_search(&ctx, "c09regs", tier.pick(16, 300), || gen_c09(regs.clone(), 3), test_case);
+    }
+    if !ctx.stopped() {
         let big = CircParams { n_min: 2, n_max: 3, max_gates: 8, bulk: vec![1001, 2500], bulk_prob: 255, ..Default::default() };
-        prop_search(&ctx, "c09big", 40, || gen_c09(big.clone(), 3), test_case);
+        prop_search(&ctx, "c09big", tier.pick(4, 40), || gen_c09(big.clone(), 3), test_case);
     }
     ctx.finish()
 }
